@@ -2,7 +2,9 @@
 KERNEL = "Coq 8.16.1 kernel, vm_compute (no native_compute); coqc full .vo build"
 TIE = ("hand-written Gallina model tied to /repo by the correspondence run of this check (model evaluated by "
        "vm_compute inside Coq on the inputs the implementation ran under CPython 3.7-3.10) and by "
-       "harness/translate_src.py for the items in coq/Gen/Src.v")
+       "harness/translate_src.py for the items in coq/Gen/Src.v, harness/translate_lines.py for the statement-level translations in "
+       "coq/Gen/SrcLines.v (expand_items, collapse_items, _parse_bytes), translate_args.py / translate_key.py / translate_norm.py / translate_header.py for "
+       "Gen/SrcArgs.v, SrcKey.v, SrcNorm.v, SrcHeader.v and harness/translate_deps.py for the reference graph in coq/Gen/SrcDeps.v")
 COMMON_TB = [KERNEL, TIE,
              "harness (worker.py, enc.py, common.py): serialisation of inputs/results, canonicalisation, oracles",
              "axioms: none declared; Print Assumptions output of every property theorem is in coverage.print_assumptions"]
@@ -189,6 +191,37 @@ PROPS["C16"] = {
             "distinct = distinct argument vectors",
     "replay_hint": "python -c 'from code_data._cli import main; main()' <data.args> in a directory holding the program file",
 }
+
+PROPS["C10"]["level_text"] += (
+    "; the entry-splitting arithmetic is additionally tied to the source by proof for ALL inputs: expand_items (its while loops, with termination "
+    "inside a stated fuel) and the comprehension, split conditions and merge of collapse_items are re-translated statement by statement from "
+    "code_data/_line_mapping.py on every run (Gen/SrcLines.v) and proved equal to the model (C10_expand_items_is_the_source, C10_collapse_conditions_are_the_source)")
+PROPS["C15"]["level_text"] += (
+    "; 'depends only on the data classes, not on the interpreter' is a theorem too (C15_json_and_normalize_never_consult_the_interpreter): in the "
+    "reference graph of the current source (Gen/SrcDeps.v, re-translated on every run, over-approximating method calls), no path of references from "
+    "to_json_data / from_json_data / normalize reaches sys, dis, opcode, platform, types, a host-dependent builtin (repr, hash, compile) or eval/exec")
+PROPS["C02"]["level_text"] += (
+    "; the EXTENDED_ARG folding is tied to the source by proof for ALL byte strings (C02_parse_bytes_is_the_source: the statement-level "
+    "translation of _parse_bytes regenerated in Gen/SrcLines.v equals the model's parse_bytes)")
+PROPS["C07"]["level_text"] += (
+    "; ints beyond 2048 bits travel as hexadecimal text (C07_big_int_text covers both forms; C07_decimal_text_only_for_short_ints: the decimal "
+    "conversion, which CPython limits by sys.set_int_max_str_digits, is only used below 617 digits)")
+PROPS["C11"]["level_text"] += "; the raise-or-exact rule is also run with assert statements compiled away (python -O sub-run of the header alterations)"
+PROPS["C16"]["level_text"] += (
+    "; program files with a byte order mark, a coding cookie or CRLF line ends, and programs whose text a command-line layer could be tempted to "
+    "tidy (blank-only lines inside string literals, tabs, trailing blanks) are part of the pool")
+PROPS["C04"]["level_text"] += (
+    "; the four functions of _args.py are tied to the source by proof for ALL inputs (C04_args_functions_are_the_source: Gen/SrcArgs.v, "
+    "re-translated on every run, equals Model/Args.v)")
+PROPS["C08"]["level_text"] += (
+    "; the equality is tied to the source by proof for ALL pairs of constants (C08_equality_is_python_eq_on_the_keys_the_source_builds: the key "
+    "function of _constants.py, re-translated on every run into a small universe of Python values with Python's ==, compares exactly as the model's ikey_eqb)")
+PROPS["C06"]["level_text"] += (
+    "; normalize is tied to the source by proof (C06_normalize_is_the_source: which fields each data class resets, re-translated from "
+    "_normalize.py on every run into Gen/SrcNorm.v, is the model's normalize)")
+PROPS["C11"]["level_text"] += (
+    "; the header case analysis of to_code_data (NOFREE check, function / non-function split, kind flag, unknown-flags test) is tied to the source "
+    "by proof for ALL inputs (C11_header_case_analysis_is_the_source, Gen/SrcHeader.v)")
 
 NOT_CLAIMED = {
 }
